@@ -204,7 +204,7 @@ def run(ctx):
                     if len(acc) == 1:
                         lb = a.loop_bound.get(T.node(acc[0])[1])
                         zero = any(T.is_int(x, 0) for x in phi_sources(T, acc[0], 2))
-                        if lb and 'QUAL' in T.show(lb[0], 4).upper() and zero:
+                        if lb and T.contains(lb[0], lambda z: z[0] == 'this' and str(z[1]).upper() == 'QUAL') and zero:   # the member set, not a like-named local
                             okd = True
             (ctx.ok if okd else ctx.bad)('R15d', key, '%s = sum over QUAL of the received sub-shares, modulo q' % mname if okd else
                                          '%s is not accumulated as 0 + sum over the members of QUAL of the received sub-shares modulo q' % mname, f)
